@@ -320,7 +320,7 @@ theorem format_entry_routes_registered :
        "parse_format_string<-implementation:_str_format_impl"] ∧
     liveRouteGuards =
       ["name_check_visitor:NameCheckVisitor._visit_binop_internal: isinstance(op, ast.Mod) and isinstance(left, KnownValue) and isinstance(left.val, (bytes, str))"] := by
-  decide
+  decide +kernel
 
 /-- Regression for the seeded change C17-2: `'%(name)s' % {'name': 1, 'size': 2}` followed by
 `'%(name)s' % {'name': 1}` — both silent, in either order, and as a union. -/
